@@ -12,7 +12,7 @@ import (
 
 // c07Spellings: ids that were never issued but read like one that was ("01" for "1", "+1"): they
 // name no message.
-var c07Spellings = []sop{{Kind: "get", MB: 0, Ref: "0#1"}, {Kind: "seen", MB: 0, Ref: "0#1"}, {Kind: "remove", MB: 0, Ref: "0#1"}, {Kind: "remove", MB: 0, Ref: "+#2"}}
+var c07Spellings = []sop{{Kind: "add", MB: 0, Body: 0, Zero: true}, {Kind: "get", MB: 0, Ref: "0#1"}, {Kind: "seen", MB: 0, Ref: "0#1"}, {Kind: "remove", MB: 0, Ref: "0#1"}, {Kind: "remove", MB: 0, Ref: "+#2"}}
 
 var c07Base = func() []sop {
 	var o []sop
